@@ -273,6 +273,13 @@ VERUS_UNITS = {
             ('final(self).data.items() == old(self).data.items().insert(r.0, EntityWorldLocal { data: *final(r.1) }),', 'final(self).data.items() == old(self).data.items(),', 'EntityLocal::get_mut'),
         ],
     },
+    'spawning': {
+        'template': 'spawning.rs.tpl',
+        'owners': [(r'spawn_(rc_)?system_command_from$', ['C13', 'C07']), (r'SystemCommandStorage::new$', ['C13'])],
+        'negctl': [
+            ('ensures spawned(*old(world), callback, *final(world), r.spec_entity()),', 'ensures spawned(*old(world), callback, *final(world), fresh(*final(world))),', 'spawn_rc_system_command_from'),
+        ],
+    },
     'dispatch': {
         'template': 'dispatch.rs.tpl',
         'owners': [(r'schedule_entity_reaction_impl$', ['C01', 'C14']), (r'ReactCache::schedule_(insertion|mutation)_reaction$', ['C01', 'C14'])],
